@@ -6,7 +6,7 @@ import os
 from . import common as c
 
 SUPPORT = ["Stream/Skip.v", "Stream/Json1.v", "Stream/Dec.v", "Stream/Spec.v", "Stream/Enc.v",
-           "Stream/SkipProofs.v", "Stream/SkipValid.v", "Stream/DecProofs1.v", "Stream/DecProofs2.v", "Stream/DecProofs.v",
+           "Stream/SkipProofs.v", "Stream/SkipValid.v", "Stream/DecProofs1.v", "Stream/DecProofs2.v", "Stream/DecProofs.v", "Stream/Valid.v",
            "Stream/EncProofs.v", "Stream/Witness.v"]
 
 CLAIM = {
@@ -163,7 +163,7 @@ def run_variant(ctx, hb, mexe, work, tag, env_extra, args, stats, findings):
                     why = "SPEC"
                 if len(fm) > 4 and fm[4] == "G1":
                     stats["guard_holds"] += 1
-                    if fi[4] not in ("ok", "skip", "skip-ctl") and not fi[4].startswith("alias"):
+                    if fi[4] not in ("ok", "skip", "skip-ctl") and not fi[4].startswith(("alias", "more:", "buf:")):
                         why = why or ("the guard of C17_stream_chunk_independent_partial holds for this stream, yet the implementation "
                                       "does not produce the specified values (" + fi[4] + ")")
             prop = fi[4]
@@ -185,6 +185,13 @@ def run_variant(ctx, hb, mexe, work, tag, env_extra, args, stats, findings):
                                       (k_, bytes.fromhex(e_.replace("-", "")).decode("utf8", "replace")[:80], bytes.fromhex(l_.replace("-", "")).decode("utf8", "replace")[:80]),
                                  {"case": describe(cs), "implementation": fi[1], "oracle(values|terminal)": fi[3],
                                   "note": "bufPool recycling on (pool phase): option.LimitBufferSize at its default"}, True))
+            elif prop.startswith("more:"):
+                _, k_, got, want = prop.split(":")
+                findings.append(("O", "More() = %s at op #%s where encoding/json.Decoder.More() on the same bytes = %s" % (got, k_, want),
+                                 {"case": describe(cs), "implementation": fi[1]}, True))
+            elif prop.startswith("buf:"):
+                findings.append(("O", "Buffered() followed by the undelivered bytes is not the stream from InputOffset() on (%s = buf:op:offset)" % prop,
+                                 {"case": describe(cs), "implementation": fi[1]}, True))
             elif prop.startswith("off"):
                 _, k_, got, lo, hi, ws = prop.split(":")
                 findings.append(("O", "InputOffset() after value %s is %s, outside [encoding/json InputOffset = end of the value %s, next token %s]" % (k_, got, lo, hi),
